@@ -454,6 +454,13 @@ def make_machine(col, stage, tier, checks, profile=None, max_conns=3, kinds=('me
         if 'repeat' in kinds:
             @rule(data=st.data())
             def same_message_again(self, data): self._step(data, 'repeat')
+        if 'clock_back' in kinds:
+            @rule(data=st.data())
+            def clock_steps_back(self, data):
+                # libwayland's 32-bit microsecond clock wraps, a realtime clock is stepped: later lines carry earlier times.
+                # Attribution does not depend on times at all
+                d = Draw(data)
+                self.t = max(0, self.t - d.choice([1_500_000, 2_500_000, 60_000_000, 4_000_000_000]))
         if 'server_retype' in kinds:
             @rule(data=st.data())
             def server_id_handed_out_again_for_another_interface(self, data): self._step(data, 'server_retype')
